@@ -495,7 +495,7 @@ def int_input(bits, signed, msb_first, negative):
     return ys
 
 
-def check_int_to_posit(ctx, prog, rule, label, path, ibits, signed, pty, full, gargs=None, seed=1):
+def check_int_to_posit(ctx, prog, rule, label, path, ibits, signed, pty, full, gargs=None, seed=1, pad=0, cell_label=''):
     """every non-zero integer of the type: cells (sign, position L of the leading one, rounding case); bits below L symbolic"""
     import collections
     I = Interp(prog, max_steps=200000)
@@ -510,7 +510,7 @@ def check_int_to_posit(ctx, prog, rule, label, path, ibits, signed, pty, full, g
             for b in bits:
                 u = (u << 1) | (asg.get(b[2], asg.get('*', 0)) if is_lit(b) else b)
             v = -u if negative else u
-            return [AInt.const(ibits, signed, v)], '%d' % v, P.encode(Fraction(v)), lambda a: I.run(path, a, gargs or {})
+            return [AInt.const(ibits, signed, v)], '%s%d' % (cell_label, v), P.encode(Fraction(v)) << pad, lambda a: I.run(path, a, gargs or {})
         return concrete
     for negative in ((False, True) if signed else (False,)):
         top = ibits - 1 if (negative or not signed) else ibits - 2
@@ -524,7 +524,7 @@ def check_int_to_posit(ctx, prog, rule, label, path, ibits, signed, pty, full, g
                     continue
                 want = clamp_const(want, nk)
                 bits = [0] * (ibits - 1 - L) + [1] + subst(lits, asg)
-                cn = '%s L=%d %s' % ('-' if negative else '+', L, cname)
+                cn = '%s%s L=%d %s' % (cell_label, '-' if negative else '+', L, cname)
                 fa = {}
                 u = 0
                 for b in bits:
@@ -536,15 +536,15 @@ def check_int_to_posit(ctx, prog, rule, label, path, ibits, signed, pty, full, g
                 def subs(bits=bits, want=want, negative=negative):
                     for a2, sub in refine_cells(list(reversed(bits)), want):
                         b2 = subst(bits, a2)
-                        yield sub, (lambda b2=b2: [int_input(ibits, signed, b2, negative)]), [0] + subst(want, a2), mkc(b2, negative)
+                        yield sub, (lambda b2=b2: [int_input(ibits, signed, b2, negative)]), [0] + subst(want, a2) + [0] * pad, mkc(b2, negative)
                 decide(ctx, I, rule, label, cn, path, (lambda bits=bits, negative=negative: [int_input(ibits, signed, bits, negative)]),
-                       gargs or {}, negative, [0] + want, mkc(bits, negative), stats, subs)
+                       gargs or {}, negative, [0] + want + [0] * pad, mkc(bits, negative), stats, subs)
     for k_, v in stats.items():
         ctx.count('rounding_%s' % k_, v)
     return stats
 
 
-def check_posit_to_int(ctx, prog, rule, label, path, pty, ibits, signed, full, gargs=None, seed=1):
+def check_posit_to_int(ctx, prog, rule, label, path, pty, ibits, signed, full, gargs=None, seed=1, pad=0, tykey=None, cell_label=''):
     """every non-zero real posit: cells (sign, regime, exponent, rounding case at the units position); result = nearest integer, ties
     to even, clamped to the integer type"""
     import collections
@@ -564,8 +564,10 @@ def check_posit_to_int(ctx, prog, rule, label, path, pty, ibits, signed, full, g
             if negative:
                 u = (-u) & mask(pty.bits)
             v = P.decode(u)
-            sv = u - (1 << pty.bits) if u >> (pty.bits - 1) else u
-            return ([AAgg(pty.tykey, [AInt.const(pty.bits, True, sv)])], '%#x (%s)' % (u, float(v)), S.to_int_spec(v, lo, hi) & mask(ibits),
+            ua = u << pad
+            w_ = pty.bits + pad
+            sv = ua - (1 << w_) if ua >> (w_ - 1) else ua
+            return ([AAgg(tykey or pty.tykey, [AInt.const(w_, True, sv)])], '%s%#x (%s)' % (cell_label, ua, float(v)), S.to_int_spec(v, lo, hi) & mask(ibits),
                     lambda a: I.run(path, a, gargs or {}))
         return concrete
     for negative in (False, True):
@@ -582,7 +584,7 @@ def check_posit_to_int(ctx, prog, rule, label, path, pty, ibits, signed, full, g
                 if want is None:
                     continue
                 bits = [0] + list(known) + subst(lits, asg)
-                cn = '%s k=%d e=%d %s' % ('-' if negative else '+', k, e, cname)
+                cn = '%s%s k=%d e=%d %s' % (cell_label, '-' if negative else '+', k, e, cname)
                 # clamp to the integer type
                 wlen = len(want)
                 is_const = all(not is_lit(b) for b in want)
@@ -615,8 +617,8 @@ def check_posit_to_int(ctx, prog, rule, label, path, pty, ibits, signed, full, g
                 def subs(bits=bits, want_bits=want_bits, negative=negative, neg_result=neg_result):
                     for a2, sub in refine_cells(list(reversed(bits)), want_bits):
                         b2 = subst(bits, a2)
-                        yield sub, (lambda b2=b2: [posit_input(pty, b2, negative)]), subst(want_bits, a2), mkc(b2, negative)
-                decide(ctx, I, rule, label, cn, path, (lambda bits=bits, negative=negative: [posit_input(pty, bits, negative)]),
+                        yield sub, (lambda b2=b2: [posit_input(pty, b2, negative, tykey, pad)]), subst(want_bits, a2), mkc(b2, negative)
+                decide(ctx, I, rule, label, cn, path, (lambda bits=bits, negative=negative: [posit_input(pty, bits, negative, tykey, pad)]),
                        gargs or {}, neg_result, want_bits, mkc(bits, negative), stats, subs)
     for k_, v in stats.items():
         ctx.count('rounding_%s' % k_, v)
